@@ -347,8 +347,3 @@ package keeper
 //@ callsite QueryERC20Trace [this-token-this-origin] erc20Address == contract && dollar_originChain == originChain
 //@ callsite AddERC20TraceToTransferContract [not-while-tokens-are-out] ncalls("QueryERC20Trace") == 1 && callsok("QueryERC20Trace") && (!callres("QueryERC20Trace", 2) || callres("QueryERC20Trace", 1) == nil || *callres("QueryERC20Trace", 1) == 0)
 //@ callsite AddERC20TraceToTransferContract [as-proposed] dollar_contract == contract && dollar_originToken == originToken && dollar_originChain == originChain && dollar_scale == scale
-
-// ---- every registered pair can be found by each of its denominations, also by one that looks like a hex address (C12) ----
-// verif:func (Keeper).GetTokenPairID
-//@ ensures [found-by-denomination] !(common.IsHexAddress(token) && len(kvget(aggregate(ctx), erc20Key(common.HexToAddress(token)))) != 0) ==> result == kvget(aggregate(ctx), denomKey(token))
-//@ ensures [found-by-contract] common.IsHexAddress(token) && len(kvget(aggregate(ctx), erc20Key(common.HexToAddress(token)))) != 0 ==> result == kvget(aggregate(ctx), erc20Key(common.HexToAddress(token)))
